@@ -152,7 +152,7 @@ def ghost_yielded(h, r):
 
 
 class _TrackFn(Contract):
-    properties = ('C12',)
+    properties = ('C12', 'C13')      # C13: iteration / length / play are computed from the merged track
     collect = True
     raises = {}
     configs = ({'skip_checks': False}, {'skip_checks': True})
@@ -239,7 +239,7 @@ class ToReltime(_TrackFn):
 @contract
 class FixEndOfTrack(_TrackFn):
     target = T + 'fix_end_of_track'
-    properties = ('C12', 'C07', 'C08', 'C16')
+    properties = ('C12', 'C07', 'C08', 'C16', 'C13')
     loops = {(T + 'fix_end_of_track', 0): _FixLoop()}
 
     def ensures(self, h, cfg, a, r):
@@ -309,7 +309,7 @@ class MergeTracks(Contract):
     checked against the callee contracts (each proved above) and the assumed contract of list.sort; the input tracks and
     messages are not written.  The user-level consequences follow by the lemmas of l_tracks.py."""
     target = T + 'merge_tracks'
-    properties = ('C12',)
+    properties = ('C12', 'C13')
     configs = tuple({'ntracks': n, 'skip_checks': sc} for n in (0, 1, 2, 3) for sc in (False, True))
     use = (T + '_to_abstime', T + '_to_reltime', T + 'fix_end_of_track')
     raises = {}
